@@ -7,6 +7,7 @@ import Proofs.TimeRoundtrip
 import Proofs.TimeCanon
 import Proofs.TimeInstant
 import Asn1.Generated
+import Proofs.KernelTime
 
 namespace Asn1.C20
 open Asn1.Time
@@ -78,6 +79,34 @@ theorem time_encoder_rows_match_source :
     ∧ Generated.derEncRows.lookup "GeneralizedTime" = some "cer.GeneralizedTimeEncoder"
     ∧ Generated.cerEncRows.lookup "UTCTime" = some "cer.UTCTimeEncoder"
     ∧ Generated.derEncRows.lookup "UTCTime" = some "cer.UTCTimeEncoder" := by decide
+
+/-! ### at the source level: the canonicaliser translated from /repo on this run -/
+
+/-- the model's two kinds carry the class attributes of the source (generated table) -/
+theorem time_kinds_match_source :
+    Generated.timeKinds =
+      [("gt", gt.yearsDigits, gt.hasSubsecond, gt.optionalMinutes, gt.shortTZ, gt.minLength, gt.maxLength),
+       ("utc", utc.yearsDigits, utc.hasSubsecond, utc.optionalMinutes, utc.shortTZ, utc.minLength, utc.maxLength)] := by
+  rfl
+
+/-- **the body of `TimeEncoderMixIn.encodeValue`** (cer/encoder.py, between `asNumbers()` and the hand-over to the string
+    encoder; translated by gen/py2lean.py into `GenK.timeCanon`) **computes the model's `canonTime`**, for every text and
+    both time types - so `canon_shape`, `canon_instant_partial`, `canon_refuses_nonutc`, … are statements about what the
+    source does now -/
+theorem source_canonicaliser_is_model (k : Kind) (s : List Char) :
+    GenK.timeCanon (k.maxLength : Int) (k.minLength : Int) (Kernels.I s) = Kernels.liftTime (canonTime k s) :=
+  Kernels.timeCanon_kernel k s
+
+/-- whatever text the source's canonicaliser lets through is the model's answer, hence has the canonical shape -/
+theorem source_canon_accepts_only_model_output (k : Kind) (s : List Char) (r : Py.Tup)
+    (h : GenK.timeCanon (k.maxLength : Int) (k.minLength : Int) (Kernels.I s) = .ok r) :
+    ∃ s', canonTime k s = .ok s' ∧ r = Kernels.I s' := by
+  rw [Kernels.timeCanon_kernel] at h
+  cases hc : canonTime k s with
+  | ok s' => rw [hc] at h; simp only [Kernels.liftTime, Except.ok.injEq] at h; exact ⟨s', rfl, h.symm⟩
+  | error e => rw [hc] at h; cases e <;> simp [Kernels.liftTime] at h
+
+example : GenK.timeCanon 20 12 (Kernels.I "20170801120112.1020Z".toList) = .ok (Kernels.I "20170801120112.12Z".toList) := by rfl
 
 /-- any offset sign is refused, also `+0000` -/
 theorem canon_refuses_sign (k : Kind) (s : List Char) (h : '+' ∈ s ∨ '-' ∈ s) :
